@@ -416,6 +416,25 @@ theorem encrypt_ne_err (cr : Crypto) (phy : Bytes) (start stop : Nat) (fcnt : UI
       | panic => simp
   · simp [hs]
 
+/-! ## creator.rs: `write_mic` -/
+
+theorem write_mic_eq (cr : Crypto) (out : Bytes) (hlen : out.length < 2 ^ 64) :
+    Outcome.ofOption (Gen.CodecFn.write_mic (ints out) (genCrypto cr)) = (writeMic cr out).map ints := by
+  have hck : Rt.ck .usize ((out.length : Int) - 4) = if 4 ≤ out.length then some ((out.length - 4 : Nat) : Int) else none := by
+    exact_mod_cast ck_usize_sub out.length 4 hlen
+  have hcm := fun pre => calc_mic_eq cr pre
+  simp only [Gen.CodecFn.write_mic, writeMic, Gen.CodecFn.MIC_LEN, usizeSub, Int.ofNat_eq_natCast, ints_length]
+  rw [hck]
+  by_cases h4 : 4 ≤ out.length
+  · have hs : Rt.slice (ints out) 0 ((out.length - 4 : Nat) : Int) = (if 0 ≤ out.length - 4 ∧ out.length - 4 ≤ out.length then some (ints ((out.take (out.length - 4)).drop 0)) else none) := by exact_mod_cast slice_ints out 0 (out.length - 4)
+    simp only [h4, if_true, Option.bind_eq_bind, Option.bind_some, bind_ok, hs, Nat.zero_le, Nat.sub_le, and_self, hcm,
+      Codec.slice]
+    have hc := copyFromSlice_ints out (calculateMic cr (List.drop 0 (List.take (out.length - 4) out))) (out.length - 4) out.length
+    rw [hc]
+    simp [Codec.copyFromSlice, Outcome.ofOption, Outcome.map]
+    by_cases hl : List.length (calculateMic cr (List.take (List.length out - 4) out)) = List.length out - (List.length out - 4) <;> simp [hl]
+  · simp [h4, Outcome.ofOption, Outcome.map]
+
 end TieA.Codec
 
 /-! ## The named tie-A theorems -/
@@ -458,6 +477,16 @@ theorem tieA_encrypt_frm_data_payload (cr : Crypto) (phy : Bytes) (start stop : 
 /-- non-vacuity: a 20-octet payload (two keystream blocks) after an 9-octet header, identity cipher: both sides answer -/
 example : (encryptFrmDataPayload ⟨⟨fun _ b => b, fun _ b => b, fun _ _ => Block.zero⟩, Block.zero⟩
     (List.replicate 29 0x40) 9 29 7).map List.length = .ok 29 := by decide
+
+/-- **Tie A (creator.rs).** `write_mic` regenerated = the hand model's `writeMic`, for every buffer (its length is a
+`usize`), cipher and key: the join MIC of everything before the last four octets written into the last four octets,
+or a panic on both sides (buffer shorter than four octets). -/
+theorem tieA_write_mic (cr : Crypto) (out : Bytes) (hlen : out.length < 2 ^ 64) :
+    Outcome.ofOption (Gen.CodecFn.write_mic (ints out) (genCrypto cr)) = (writeMic cr out).map ints :=
+  write_mic_eq cr out hlen
+
+example : (writeMic ⟨⟨fun _ b => b, fun _ b => b, fun _ _ => Vector.replicate 16 7⟩, Block.zero⟩ [1, 2, 3, 4, 5, 6]).map ints
+    = .ok [1, 2, 7, 7, 7, 7] := by decide
 
 /-- non-vacuity: on a concrete downlink header both sides of `tieA_generate_helper_block` are a block (not a panic) -/
 example : (generateHelperBlock [0x60, 1, 2, 3, 4, 0, 7, 0] 0x49 0x01020304 Block.zero).map (fun b => ints b.toList)
